@@ -34,6 +34,7 @@ type node struct {
 	pos      token.Pos
 	loopHead token.Pos // for kNop loop heads: position of the for statement
 	pure     string    // kUnknown: canonical text of a pure condition over local variables ("" otherwise)
+	barrier  bool      // kNop standing for a statement without parser calls (it may write variables)
 	id       int
 	mark     int
 }
@@ -48,6 +49,8 @@ type cfg struct {
 	headOf    map[*node]token.Pos
 	degraded  []token.Pos // position tests degraded to Unknown
 	snapDef   []bool      // a snapshot has been taken on every path to the node
+	builtNext, builtTick, builtCall int // call expressions visited by the builder (outside inlined bodies)
+	assumedUsed []token.Pos
 }
 
 type loopCtx struct {
@@ -81,6 +84,9 @@ func (b *builder) mk(k kind, pos token.Pos) *node {
 }
 
 func (b *builder) nop(next *node) *node { return &node{kind: kNop, s1: next} }
+
+// barrier: a statement ran here that may have written variables (no event, no step)
+func (b *builder) barrier(next *node) *node { return &node{kind: kNop, s1: next, barrier: true} }
 
 // findGuardVars: v := X.current.Pos, v never written again, address never taken
 func (pk *pkgInfo) findGuardVars(fi *fnInfo) map[*types.Var]bool {
@@ -243,6 +249,7 @@ func (b *builder) call(x *ast.CallExpr, next *node) *node {
 			n.callee = c
 			n.s1 = next
 		}
+		b.count(c)
 		return b.value(recv, b.values(x.Args, n))
 	}
 	// not a relevant callee: only the operands matter
@@ -257,6 +264,21 @@ func (b *builder) call(x *ast.CallExpr, next *node) *node {
 		fun = recv
 	}
 	return b.value(fun, b.values(x.Args, next))
+}
+
+// count: the builder has translated a call of c that is written in the function itself
+func (b *builder) count(c *fnInfo) {
+	if b.depth > 0 {
+		return
+	}
+	switch c.prim {
+	case "next":
+		b.g.builtNext++
+	case "cur", "peek":
+		b.g.builtTick++
+	default:
+		b.g.builtCall++
+	}
 }
 
 func (b *builder) tokenOf(e ast.Expr) (int64, bool) {
@@ -349,6 +371,9 @@ func (b *builder) cond(e ast.Expr, t, f *node) *node {
 		c := pk.calleeOf(x)
 		if c != nil && (c.relevant || c.inlinable) {
 			recv := b.recvOf(x)
+			if c.prim == "cur" || c.prim == "peek" {
+				b.count(c)
+			}
 			switch c.prim {
 			case "cur":
 				if len(x.Args) == 1 {
@@ -369,6 +394,9 @@ func (b *builder) cond(e ast.Expr, t, f *node) *node {
 			case "next":
 			default:
 				if c.inlinable && b.depth < maxInlineDepth && !b.onInlStack(c) && recv != nil && pk.isParserExpr(recv) {
+					if c.relevant {
+						b.count(c)
+					}
 					return b.value(recv, b.values(x.Args, b.inline(c, x, t, f)))
 				}
 			}
@@ -623,6 +651,20 @@ func escapes(s ast.Node) bool {
 }
 
 func (b *builder) stmt(s ast.Stmt, next *node, label string) *node {
+	switch s.(type) {
+	case nil, *ast.EmptyStmt, *ast.BlockStmt, *ast.IfStmt, *ast.LabeledStmt, *ast.BranchStmt, *ast.ReturnStmt,
+		*ast.SwitchStmt, *ast.TypeSwitchStmt, *ast.SelectStmt:
+		// control flow only; the statements inside get their own barriers. (Conditions are pure or
+		// become Unknown nodes, which stop jump threading by themselves.)
+		return b.stmt0(s, next, label)
+	case *ast.ForStmt, *ast.RangeStmt:
+		// a tick-free loop is elided: it may still have written variables
+		return b.barrier(b.stmt0(s, b.barrier(next), label))
+	}
+	return b.barrier(b.stmt0(s, next, label))
+}
+
+func (b *builder) stmt0(s ast.Stmt, next *node, label string) *node {
 	pk := b.pk
 	switch x := s.(type) {
 	case nil:
@@ -721,7 +763,8 @@ func (b *builder) stmt(s ast.Stmt, next *node, label string) *node {
 		head := b.nop(nil)
 		head.loopHead = x.Pos()
 		b.g.loops = append(b.g.loops, x.Pos())
-		post := b.stmt(x.Post, head, "")
+		entry, back := b.assumed(x.Pos(), head)
+		post := b.stmt(x.Post, back, "")
 		b.ctx = append(b.ctx, loopCtx{label: label, brk: next, cont: post})
 		body := b.block(x.Body.List, post)
 		b.ctx = b.ctx[:len(b.ctx)-1]
@@ -730,7 +773,7 @@ func (b *builder) stmt(s ast.Stmt, next *node, label string) *node {
 		} else {
 			head.s1 = body
 		}
-		return b.stmt(x.Init, head, "")
+		return b.stmt(x.Init, entry, "")
 	case *ast.RangeStmt:
 		if tv, ok := pk.info.Types[x.X]; ok {
 			if _, isFunc := tv.Type.Underlying().(*types.Signature); isFunc {
@@ -750,13 +793,14 @@ func (b *builder) stmt(s ast.Stmt, next *node, label string) *node {
 		head := b.nop(nil)
 		head.loopHead = x.Pos()
 		b.g.loops = append(b.g.loops, x.Pos())
-		b.ctx = append(b.ctx, loopCtx{label: label, brk: next, cont: head})
-		body := b.block(x.Body.List, head)
+		entry, back := b.assumed(x.Pos(), head)
+		b.ctx = append(b.ctx, loopCtx{label: label, brk: next, cont: back})
+		body := b.block(x.Body.List, back)
 		b.ctx = b.ctx[:len(b.ctx)-1]
 		u := b.mk(kUnknown, x.Pos())
 		u.s1, u.s2 = body, next
 		head.s1 = u
-		return b.value(x.X, head)
+		return b.value(x.X, entry)
 	case *ast.SwitchStmt:
 		return b.stmt(x.Init, b.switchStmt(x, next, label), "")
 	case *ast.TypeSwitchStmt:
@@ -901,6 +945,21 @@ func (b *builder) switchStmt(x *ast.SwitchStmt, next *node, label string) *node 
 	return test
 }
 
+// assumed: for a loop listed as assumed_progress, the loop is entered through a snapshot and every
+// back edge passes an AssumeProgress marker (which blocks unless a token was consumed since the snapshot)
+func (b *builder) assumed(pos token.Pos, head *node) (entry, back *node) {
+	if !b.pk.assumedLoops[pos] {
+		return head, head
+	}
+	v := types.NewVar(pos, b.pk.pkg, "assumed_progress", types.Typ[types.Int])
+	snap := b.mk(kSnap, pos)
+	snap.gvar, snap.s1 = v, head
+	as := b.mk(kAssume, pos)
+	as.gvar, as.s1 = v, snap
+	b.g.assumedUsed = append(b.g.assumedUsed, pos)
+	return snap, as
+}
+
 // ---- whole function ----
 
 func resolve(n *node) *node {
@@ -995,11 +1054,11 @@ func threadJumps(entry *node) {
 		}
 		for k := 0; k < 4; k++ { // bounded chain
 			changed := false
-			if m := resolve(n.s1); m != nil && m != n && m.kind == kUnknown && m.pure == n.pure {
+			if m := skipJoins(n.s1); m != nil && m != n && m.kind == kUnknown && m.pure == n.pure {
 				n.s1 = m.s1
 				changed = true
 			}
-			if m := resolve(n.s2); m != nil && m != n && m.kind == kUnknown && m.pure == n.pure {
+			if m := skipJoins(n.s2); m != nil && m != n && m.kind == kUnknown && m.pure == n.pure {
 				n.s2 = m.s2
 				changed = true
 			}
@@ -1008,4 +1067,15 @@ func threadJumps(entry *node) {
 			}
 		}
 	}
+}
+
+// skipJoins follows joins (nops that stand for no statement); nil if a statement intervenes
+func skipJoins(n *node) *node {
+	for i := 0; n != nil && n.kind == kNop; i++ {
+		if n.barrier || i > 1000 {
+			return nil
+		}
+		n = n.s1
+	}
+	return n
 }
